@@ -219,12 +219,15 @@ func makeMethodArshaler(fncs *arshaler, t reflect.Type) *arshaler {
 			}
 			xe := export.Encoder(enc)
 			prevDepth, prevLength := xe.Tokens.DepthLength()
+			prevWithin := xe.Flags.Get(jsonflags.WithinArshalCall)
 			xe.Flags.Set(jsonflags.WithinArshalCall | 1)
 			prevFloor := xe.Tokens.Floor
 			xe.Tokens.Floor = len(xe.Tokens.Stack)
 			marshaler, _ := reflect.TypeAssert[MarshalerTo](va.Addr())
 			err := marshaler.MarshalJSONTo(enc)
-			xe.Flags.Set(jsonflags.WithinArshalCall | 0)
+			if !prevWithin { // still within the enclosing user call otherwise
+				xe.Flags.Set(jsonflags.WithinArshalCall | 0)
+			}
 			xe.Tokens.Floor = prevFloor
 			currDepth, currLength := xe.Tokens.DepthLength()
 			if (prevDepth != currDepth || prevLength+1 != currLength) && err == nil {
@@ -321,12 +324,15 @@ func makeMethodArshaler(fncs *arshaler, t reflect.Type) *arshaler {
 			if prevDepth == 1 && xd.AtEOF() {
 				return io.EOF // check EOF early to avoid fn reporting an EOF
 			}
+			prevWithin := xd.Flags.Get(jsonflags.WithinArshalCall)
 			xd.Flags.Set(jsonflags.WithinArshalCall | 1)
 			prevFloor := xd.Tokens.Floor
 			xd.Tokens.Floor = len(xd.Tokens.Stack)
 			unmarshaler, _ := reflect.TypeAssert[UnmarshalerFrom](va.Addr())
 			err := unmarshaler.UnmarshalJSONFrom(dec)
-			xd.Flags.Set(jsonflags.WithinArshalCall | 0)
+			if !prevWithin { // still within the enclosing user call otherwise
+				xd.Flags.Set(jsonflags.WithinArshalCall | 0)
+			}
 			xd.Tokens.Floor = prevFloor
 			currDepth, currLength := xd.Tokens.DepthLength()
 			if (prevDepth != currDepth || prevLength+1 != currLength) && err == nil {
